@@ -9,6 +9,10 @@ from vlib.ref import dft as rdft
 from vlib.ref import plane_model as pm
 from vlib.runner import Skip, Violation, expect_raises, hyp, lentil_call
 
+# the check's own calls are issued with keywords or positionally in the documented order (vlib/callforms.py)
+from vlib import callforms as _cf
+lentil = _cf.proxy(lentil)
+
 RULE = ("FFT grids 2..32 per axis of either parity with pupils no larger than the grid, isotropic "
         "non-commensurate samplings (reported wavelength != requested) and per-axis commensurate samplings, "
         "oversampling 1-4, output shapes (none / accepted / too large), scratch buffers (none / exact / larger / "
